@@ -4,7 +4,8 @@
 
    Every event carries an observation made from the harness side of the stubs (times in ms):
      t        virtual time           idle    the loop has no ready handle
-     st[q]    new | pending | ok | timeout | cancelled | error      (q = v, b, f1, f2)
+     st[q]    new | pending | ok | timeout | cancelled | error      (q = v, b, f1, f2, and v2 = the
+              immediate retry the victim's caller issues from its exception handler, if enabled)
      ph[q]    where q is as far as the stubs show: waiting | sock | connmade | exchange | <st>
      refs[K]  instant from which timeout K of the victim currently counts (-1: does not apply):
               total        = request start, while the call is pending
@@ -63,7 +64,8 @@ Residue(o) ==
     ELSE IF o.tasks # <<>> THEN "task-running"
     ELSE IF o.timers # <<>> /\ o.st["v"] = "ok" /\ Rng(o.timers) = {"read"} THEN "read-timer-rearmed"
     ELSE IF o.timers # <<>> THEN "timer-pending"
-    ELSE IF o.dnsw > (IF o.st["b"] = "pending" /\ o.ph["b"] = "waiting" THEN 1 ELSE 0) THEN "dns-waiter"
+    ELSE IF o.dnsw > Cardinality({q \in DOMAIN o.st : q # "v" /\ o.st[q] = "pending" /\ o.ph[q] = "waiting"})
+         THEN "dns-waiter"
     ELSE ""
 
 Clause(p, e, c, rd) ==
